@@ -926,6 +926,12 @@ def monitors(lines, answers):
                     fails.append(("c16-unauthenticated-newacc-upload", i, "upload %s with no credentials (topic=newacc)" % effect))
                 else:
                     fails.append(("gate-credentials", i, "effect %s without valid credentials" % effect))
+            if w[0] in ("SV", "SVX") and d["m"] in ("GET", "HEAD") and status == "200" and not worked:
+                # a 200 without bytes (HEAD, the media handler's own status) also lies behind both checks
+                if not anykey:
+                    fails.append(("gate-valid-key", i, "%s answered 200 without a valid API key" % d["m"]))
+                elif not anycred:
+                    fails.append(("gate-credentials", i, "%s answered 200 without valid credentials" % d["m"]))
             if d["m"] not in impl_methods and not (status == "405" and not worked):
                 fails.append(("methods", i, "method %s answered %s %s" % (d["m"], status, effect)))
             if status == "CRASH" and d.get("mh") != "none":
@@ -1475,7 +1481,7 @@ def run(ctx):
         gap0_c16c = len(g.lines)          # the request lines in between do not belong to a stand-alone history
         download_full_cases_c16c(g)
         g.gap_c16c = (gap0_c16c, len(g.lines))
-        avatar_fault_cases_c16c(g, 6 if quick else 200, 24 if quick else 32)
+        avatar_fault_cases_c16c(g, 6 if quick else 120, 24 if quick else 32)
         # USER 1 must come before the FA lines (they authenticate as user 1)
         lines = ["USER 1"] + pure + g.lines[1:]
     rc, impl, err = run_impl(ctx, lines)
@@ -1611,8 +1617,10 @@ def run(ctx):
                 "{pub} with attachment lists (noecho / head variants) by each of them, by a root session on behalf of members and outsiders, and to 'sys' by users without a subscription, "
                 "the k-th adapter call of the request made to fail (SubsUpdate and FileLinkAttachments at least once per history), memverif's log of the adapter calls of every publish compared with the call log of the Save model, "
                 "upload records aged past the grace period followed by the garbage collector's own call DeleteUnused(now - 1h, limit), dumps after every step; "
+                "download requests with every field of the upload request (SVX: every valid-key placement x every way of carrying no valid credentials x the topic parameter - newacc and neighbours - in query / form / cookie for GET and HEAD; the method x key x credential cross product with form fields in a multipart body, sampled in quick; precedence pairs; handler configurations; URL shapes); "
+                "%d seeded avatar histories under store faults: a group topic with a member and the 'me' topics of both users, blocks of [acknowledged {set desc public+attachments}; the adversarial request - k-th adapter call failing (core update, subscription update, link call), a non-owner, private only, nothing to change -; AGE + DeleteUnused(now - 1h) + downloads of the old and the new avatar], {acc user=new} with an avatar and the k-th adapter call failing, memverif's call log of every such request compared with the model's, dumps after every step; "
                 "the statements of the real MySQL adapter for GC / linking / FinishUpload executed on sqlite over enumerated tables of up to 3 uploads (old / new, 7 link sets each) x 6 (bound, limit) pairs; "
-                "non-trivial = an id was extracted / a request had an effect / a history operation ran" % (7 if quick else 11, 12 if quick else 400, 8 if quick else 250),
+                "non-trivial = an id was extracted / a request had an effect / a history operation ran" % (7 if quick else 11, 12 if quick else 400, 8 if quick else 250, 6 if quick else 120),
         "samples": [{"case": lines[i][:300], "impl": impl[i][:300]} for i in ([i for i in (1, 2, 3) if i < len(lines)] + ctx.rng.sample(range(len(lines)), min(6, len(lines))))],
         "traces_validated_against_impl": len(lines), "correspondence_mismatches": len(mism),
         "monitor_failures": len(fails), "search_pool": searched,
@@ -1625,6 +1633,7 @@ def run(ctx):
             "harness/overlay/server/db/memverif (in-memory adapter with the MySQL adapter's file/link semantics: modelled from db/mysql/adapter.go:3171-3396, not verified)",
             "harness/runner/r_c16.ml glue: text of a placement kind -> constructor (valid key / good token / bad signature ...), upload k <-> model id; for PUBX lines: the sender's (want, given) taken from the MEMBER / P2P / TOPIC lines (the mode algebra itself is C05/C07's), position k of the failing adapter call -> fault plan of the Save model, model time = sum of the AGE lines",
             "harness/overlay/server/zz_verif_c16b_test.go (sender-mode part of the driver: builds the {sub}/{set}/{pub} requests, reads memverif's call log and subscription rows) and memverif.AgeFilesC16b (moves updatedat of the upload records back)",
+            "harness/overlay/server/zz_verif_c16c_test.go (SVX: builds GET / HEAD requests with a multipart body, cookies and query for the real largeFileServe; SETX / NEWACCX: builds the {set} / {acc} requests, arms memverif.SetFault(k), reads memverif's call log, the stored public of the topic / user and the users table via memverif.DumpUsersC16c) and the runner's glue for these lines in r_c16.ml: the request environment of the {set desc} model (pre-check outcome, core / sub non-empty) is derived from the line - a group topic is changed by its owner only, the driver's values always differ from the stored ones -, position k of the failing call -> fault plan by a fault-free run of the model",
             "tools/props/c16.py law monitors (python restatement of the theorems, evaluated on the implementation's answers)",
             "outside the model: bytes on disk, http.DetectContentType, http.ServeContent, multipart parsing, MaxBytesReader (checked by the correspondence only)",
             "FinishUpload / StartUpload store failures are injected through memverif.SetFault; a media handler that is not configured is obtained by UseMediaHandler of an unknown name (recovered)",
